@@ -37,7 +37,7 @@ func GenConfig(t *rapid.T, entries []string, o GenOpts) Config {
 func GenOps(t *rapid.T, w, h int, o GenOpts) []Op {
 	n := rapid.IntRange(1, o.MaxOps).Draw(t, "nops")
 	var ops []Op
-	var last *Op
+	var last, lastLock *Op
 	shows := 0
 	for i := 0; i < n; i++ {
 		k := rapid.IntRange(0, 29).Draw(t, "opkind")
@@ -90,6 +90,15 @@ func GenOps(t *rapid.T, w, h int, o GenOpts) []Op {
 			}
 		case k == 18 && o.Lock:
 			op = Op{Kind: "lock", X: rapid.IntRange(-1, w).Draw(t, "lx"), Y: rapid.IntRange(-1, h).Draw(t, "ly"), W: rapid.IntRange(0, 3).Draw(t, "lw"), H: rapid.IntRange(0, 2).Draw(t, "lh"), On: rapid.IntRange(0, 2).Draw(t, "lon") != 0}
+			if lastLock != nil && rapid.IntRange(0, 2).Draw(t, "relock") == 0 {
+				// the same region again: locked twice, or the matching unlock
+				op = *lastLock
+				op.On = rapid.Bool().Draw(t, "relockon")
+			}
+			if op.On {
+				c := op
+				lastLock = &c
+			}
 		case k == 19 && o.Resize:
 			op = Op{Kind: "resize", W: rapid.IntRange(max(1, o.MinW), o.MaxW).Draw(t, "nw"), H: rapid.IntRange(1, o.MaxH).Draw(t, "nh"), On: !o.NoNotify && rapid.Bool().Draw(t, "notify")}
 			w, h = op.W, op.H
